@@ -34,6 +34,18 @@ def generic_replay(prop, path):
     from pyvc.contracts import ContractDB
     from pyvc import rtc
     doc = json.load(open(path if os.path.isabs(path) else os.path.join(common.HERE, path)))
+    standin_replays = {"C01": "checks.ctrlx", "C02": "checks.ctrlx", "C03": "checks.ctrlx", "C04": "checks.ctrlx", "C08": "checks.shm_bounded", "C09": "checks.shm_bounded"}
+    if doc.get("kind") != "smt-model" and doc.get("inputs") is not None and prop in standin_replays:
+        # a case found by a bounded stand-in: run exactly that case again on the current tree
+        fails = importlib.import_module(standin_replays[prop]).replay_case(doc)
+        mine = [f for f in fails if f[0] == prop]
+        for f in mine:
+            print(f"DETAIL: obligation={f[1]} :: {f[2]}")
+        if any(f[1] == doc.get("obligation") for f in mine):
+            print(f"VIOLATION property={prop} replay={path}")
+            return 1
+        print("replay: the recorded case no longer violates the recorded obligation on this tree")
+        return 0
     if doc.get("kind") != "smt-model" or doc.get("inputs") is None:
         print("replay: this file carries no concrete input (no-failing-input-found); re-run the check itself")
         return 2
